@@ -32,6 +32,7 @@ from tf_pwa.particle import (
     _spin_int,
     _spin_range,
     cp_charge_group,
+    instance_cache_fun,
     split_particle_type,
 )
 from tf_pwa.tensorflow_wrapper import tf
@@ -848,7 +849,7 @@ class HelicityDecay(AmpDecay):
             ls, out_sym=out_sym, helicity_inner_full=self.helicity_inner_full
         )
 
-    @functools.lru_cache()
+    @instance_cache_fun
     def _get_cg_matrix(
         self, ls, out_sym=False, helicity_inner_full=False
     ):  # CG factor inside H
